@@ -76,11 +76,18 @@ def run(chk, repo, tier):
     npaths += secp_jacobian_obligations(chk, "C13.R4", repo, w)
     # the dispatch of add / eq / is_inf / linefunc compares field elements: those comparisons must be exact (C08 re-stated for
     # the extension classes the optimized curves are instantiated with)
-    from ..fieldcheck import FieldSubject, fqp_eq_obligations
+    from ..fieldcheck import FieldSubject, fqp_eq_obligations, run_fqp
     for q in ("py_ecc.fields.optimized_bn128_FQ2", "py_ecc.fields.optimized_bn128_FQ12",
               "py_ecc.fields.optimized_bls12_381_FQ2", "py_ecc.fields.optimized_bls12_381_FQ12"):
-        for key, ok, det, where in fqp_eq_obligations(FieldSubject(w, repo.cls(q))):
-            chk.ob("C13.R5", q, key, ok, det, where)
+        S = FieldSubject(w, repo.cls(q))
+        if S.d == 2:
+            # the z == 0 / x == x' tests compare stored coefficients: every operator result (and every constructed element) must be
+            # stored reduced, or a zero written as p compares unequal to zero (all of C08's obligations for the quadratic classes)
+            for key, ok, det, where in run_fqp(S):
+                chk.ob("C13.R5", q, f"[C08] {key}", ok, det, where)
+        else:
+            for key, ok, det, where in fqp_eq_obligations(S):
+                chk.ob("C13.R5", q, key, ok, det, where)
     chk.note_analysed(paths=npaths, subject_functions=2 * 7 + 2 + 4)
 
 
